@@ -66,7 +66,21 @@ def programs(tier: str) -> list[dict]:
         progs.append(progspace.random_program(rng, f"r{k}", int(rng.integers(1, 9))))
     # calls to hand-written loopy kernels (static shapes; ptverif/lpkernels.py)
     progs += list(progspace.fam_lpcall(rng, 150 if tier == "quick" else 1500))
-    return progs
+    return with_inlined_reductions(progs)
+
+
+REDUCING = {"sum", "prod", "amax", "amin", "all", "any", "einsum", "matmul", "dot", "vdot",
+            "csr"}
+
+
+def with_inlined_reductions(progs: list[dict]) -> list[dict]:
+    """Every program with a reduction additionally in the mode in which
+    reductions with affine bounds are INLINED (cexec.generate, qa_shim)."""
+    out = list(progs)
+    for p in progs:
+        if any(c["op"] in REDUCING for c in p["calls"]):
+            out.append({**p, "id": p["id"] + "|qa", "qa": True})
+    return out
 
 
 def classify_exception(ex: BaseException, tb: str) -> str:
@@ -116,7 +130,7 @@ def run_variant(prog: dict, variant: Any, keep_outputs: bool = False) -> dict:
             return res
 
     def gen(d: dict) -> Any:
-        return cexec.generate(pt.make_dict_of_named_arrays(d))
+        return cexec.generate(pt.make_dict_of_named_arrays(d), qa_shim=bool(prog.get("qa")))
     try:
         bp = gen(outs)
     except Exception as ex:      # noqa: BLE001
